@@ -1251,6 +1251,18 @@ pub fn run(args: &Args) {
             }
         }
     }
+    // 3c. SimpleZipBlobStore with fragment lengths beyond 16 bits (max_frag_len may be configured up to 1 MiB): records made of
+    //     delimiter-free runs of 65535 / 65536 / 65537 / 70000 / 131073 bytes ('a'/'b' only; the delimiter is '\n'),
+    //     alone, repeated (pool de-duplication) and between small records
+    for spec in ["simplezip:1,70000,10", "simplezip:1,1048576,10", "simplezip:65536,131072,10"] {
+        for (k, &n) in [65535usize, 65536, 65537, 70000, 131073].iter().enumerate() {
+            if !args.thorough && spec.ends_with("131072,10") && k % 2 == 1 { continue; }
+            let recs = vec![json!([2, 40, k]), json!([4, n, k + 1]), json!([0, 0, 0]), json!([4, n, k + 1]), json!([4, n / 2, k + 2]), json!([3, 5, 9])];
+            let c = json!({"cell": spec, "kind": "build", "recs": recs});
+            run_case(&mut cx, &c, false);
+            cx.sum.dist("simplezip_long_fragment_cases");
+        }
+    }
     // 4. stores seeded with explicit ids (from_data), incl. ids next to u32::MAX
     for _ in 0..(if args.thorough { 400 } else { 40 }) {
         let n = rng.range(1, 5);
